@@ -129,6 +129,21 @@ async fn rep_history(rng: &mut Rng, tr: Transport, tasks: usize, peers: usize, n
       }
     }));
   }
+  // an unrelated peer that keeps connecting and disconnecting without ever sending a request
+  if tr != Transport::Inproc {
+    let ctx2 = ctx.clone();
+    let ep2 = ep.clone();
+    clients.push(tokio::spawn(async move {
+      for _ in 0..200 {
+        if let Ok(idle) = ctx2.socket(SocketType::Dealer) {
+          let _ = idle.connect(&ep2).await;
+          tokio::time::sleep(Duration::from_millis(25)).await;
+          let _ = idle.close().await;
+        }
+        tokio::time::sleep(Duration::from_millis(10)).await;
+      }
+    }));
+  }
   tokio::time::sleep(Duration::from_millis(if tr == Transport::Inproc { 30 } else { 200 })).await;
   verif::set_perturbation(if perturb { rng.next() | 1 } else { 0 });
   let log: Arc<parking_lot::Mutex<Vec<(Op, String)>>> = Default::default();
@@ -189,7 +204,18 @@ fn judge(rep: &mut Report, which: &str, first: char, tasks: usize, h: &Hist, ctx
     v.into_iter().map(|x| x.1).collect()
   };
   if !lin {
-    let mode = if tasks == 1 { "sequential" } else { "concurrent" };
+    let mut mode = if tasks == 1 { "sequential" } else { "concurrent" };
+    if which == "REQ" {
+      // recorded defect: a recv() that fails with Timeout puts REQ back into ready-to-send. If the
+      // history becomes linearisable once timed-out recvs are counted as state-resetting recvs,
+      // it is that defect and nothing else.
+      let relaxed: Vec<Op> = h.ops.iter().zip(h.results.iter()).map(|(o, r)| { let mut o = o.clone(); if o.kind == 'R' && !o.ok && r == "Timeout" { o.ok = true; } o }).collect();
+      let mut rs = relaxed.clone();
+      rs.sort_by_key(|o| o.call);
+      if alternation_linearizable(&rs, first) {
+        mode = "recv_timeout_resets_state";
+      }
+    }
     rep.violation(
       format!("alternation_broken|{}|{}", which, mode),
       format!("{}: the successful operations admit no linearisation that alternates {} ({}; necessary count condition holds: {})", which, if first == 'S' { "send,recv,send,.." } else { "recv,send,recv,.." }, ctx, nec),
@@ -314,6 +340,63 @@ async fn late_reply_case(rep: &mut Report) {
   let _ = tokio::time::timeout(Duration::from_secs(12), ctx.term()).await;
 }
 
+/// A reply is owed to peer A; meanwhile another peer B (or A itself) goes away. The REP must
+/// still answer A / must accept the next request, i.e. stay on the alternation track.
+async fn disconnect_while_reply_owed_case(rep: &mut Report, requester_leaves: bool, tr: Transport) {
+  use rzmq::socket::SocketEvent;
+  let ctx = util::new_ctx();
+  let r = ctx.socket(SocketType::Rep).unwrap();
+  util::set_i32(&r, opt::RCVTIMEO, 1500).await;
+  util::set_i32(&r, opt::SNDTIMEO, 1500).await;
+  let mon = r.monitor(256).await.unwrap();
+  let ep = util::bind_fresh(&r, tr).await.unwrap();
+  let a = ctx.socket(SocketType::Req).unwrap();
+  util::set_i32(&a, opt::RCVTIMEO, 2000).await;
+  let b = ctx.socket(SocketType::Req).unwrap();
+  a.connect(&ep).await.unwrap();
+  b.connect(&ep).await.unwrap();
+  tokio::time::sleep(Duration::from_millis(250)).await;
+  let mut desc: Vec<String> = vec![];
+  let _ = a.send(util::msg(b"from-A".to_vec(), false)).await;
+  let g = r.recv().await;
+  desc.push(format!("REP.recv -> {}", g.as_ref().map(|m| String::from_utf8_lossy(m.data().unwrap_or(&[])).into_owned()).unwrap_or_else(|e| util::err_kind(e))));
+  if requester_leaves {
+    let _ = a.close().await;
+  } else {
+    let _ = b.close().await;
+  }
+  let _ = util::wait_event(&mon, Duration::from_secs(2), |e| matches!(e, SocketEvent::Disconnected { .. })).await;
+  tokio::time::sleep(Duration::from_millis(100)).await;
+  let s = r.send(util::msg(b"reply-to-A".to_vec(), false)).await;
+  desc.push(format!("REP.send -> {}", s.as_ref().map(|_| "ok".to_string()).unwrap_or_else(|e| util::err_kind(e))));
+  rep.case(&("disconnect_while_reply_owed", requester_leaves, tr), true);
+  let sig_tail = if requester_leaves { "requester_left" } else { "other_peer_left" };
+  if !requester_leaves {
+    if s.is_err() {
+      rep.violation(format!("reply_owed_lost_on_unrelated_disconnect|{}", sig_tail), format!("REP over {}: after recv() of A's request an UNRELATED peer disconnected; the owed send() failed: {:?}", tr.name(), desc), json!({"history": desc}));
+    } else {
+      match a.recv().await {
+        Ok(m) if m.data() == Some(b"reply-to-A") => {}
+        other => rep.violation(format!("reply_owed_lost_on_unrelated_disconnect|{}", sig_tail), format!("REP over {}: the reply did not reach the requester after an unrelated peer disconnected: {:?}", tr.name(), other.map(|m| m.size()).map_err(|e| util::err_kind(&e))), json!({"history": desc})),
+      }
+    }
+  }
+  // whatever happened to that reply, the REP must now be ready to receive the next request
+  let c = ctx.socket(SocketType::Req).unwrap();
+  util::set_i32(&c, opt::RCVTIMEO, 2000).await;
+  c.connect(&ep).await.unwrap();
+  tokio::time::sleep(Duration::from_millis(200)).await;
+  let _ = c.send(util::msg(b"from-C".to_vec(), false)).await;
+  let g2 = r.recv().await;
+  let s2 = r.send(util::msg(b"reply-to-C".to_vec(), false)).await;
+  let c_got = c.recv().await;
+  desc.push(format!("REP.recv -> {:?}; REP.send -> {:?}", g2.as_ref().map(|m| m.size()).map_err(|e| util::err_kind(e)), s2.as_ref().map_err(|e| util::err_kind(e))));
+  if !(matches!(&g2, Ok(m) if m.data() == Some(b"from-C")) && s2.is_ok() && matches!(&c_got, Ok(m) if m.data() == Some(b"reply-to-C"))) {
+    rep.violation(format!("rep_off_track_after_disconnect|{}", sig_tail), format!("REP over {}: after a peer disconnected while a reply was owed, the next request/reply round failed: {:?}", tr.name(), desc), json!({"history": desc}));
+  }
+  let _ = tokio::time::timeout(Duration::from_secs(12), ctx.term()).await;
+}
+
 /// Reply routing: one REP (single task, lock-step) with 3 DEALER clients; REP echoes the request;
 /// every client must only ever receive echoes of its own requests, each exactly once.
 async fn routing_case(rep: &mut Report, rng: &mut Rng, tr: Transport) {
@@ -403,6 +486,10 @@ fn main() {
       rt.block_on(gate_case(&mut rep, "REQ"));
       rt.block_on(gate_case(&mut rep, "REP"));
       rt.block_on(late_reply_case(&mut rep));
+      for tr in [Transport::Tcp, Transport::Ipc] {
+        rt.block_on(disconnect_while_reply_owed_case(&mut rep, false, tr));
+        rt.block_on(disconnect_while_reply_owed_case(&mut rep, true, tr));
+      }
       for tr in [Transport::Tcp, Transport::Inproc, Transport::Ipc] {
         rt.block_on(routing_case(&mut rep, &mut rng, tr));
       }
